@@ -112,27 +112,38 @@ Conflict(tb, p, s, n) ==
   p > 0 /\ \/ ClassOf(s) = "infix" /\ Defined(tb, n, "postfix")
            \/ ClassOf(s) = "postfix" /\ Defined(tb, n, "infix")
 
-(* names applied left to right (8.14.3.1: "for each"); stops at the first conflict *)
+(* the errors that stop the processing of one element e of the third argument in table tb (P, S valid) *)
+ElemStop(tb, P, S, e) ==
+  IF IsVar(e) THEN {InstErr}
+  ELSE IF ~IsAtom(e) THEN {TypeErr("atom", e)}
+  ELSE ProtErrs(e.n) \cup (IF e.n = "|" /\ BarBad(P, S) THEN {PermErr("create", "|")} ELSE {})
+       \cup (IF Conflict(tb, P.i, S.n, e.n) THEN {PermErr("create", e.n)} ELSE {})
+
+(* elements processed left to right (8.14.3.1: "for each"); stops at the first element that raises an error *)
 RECURSIVE RunNames(_, _, _, _)
-RunNames(tb, p, s, ns) ==
-  IF ns = <<>> THEN [ok |-> TRUE, tb |-> tb, err |-> InstErr]
-  ELSE IF Conflict(tb, p, s, Head(ns)) THEN [ok |-> FALSE, tb |-> tb, err |-> PermErr("create", Head(ns))]
-  ELSE RunNames(With(tb, Head(ns), p, s), p, s, Tail(ns))
+RunNames(tb, P, S, es) ==
+  IF es = <<>> THEN [ok |-> TRUE, tb |-> tb, errs |-> {}]
+  ELSE IF ElemStop(tb, P, S, Head(es)) # {} THEN [ok |-> FALSE, tb |-> tb, errs |-> ElemStop(tb, P, S, Head(es))]
+  ELSE RunNames(With(tb, Head(es).n, P.i, S.n), P, S, Tail(es))
 
 (* op(P, S, N) in table tb:                                                                               *)
 (*   errs = {}  : the call succeeds and the table becomes the single element of alts                       *)
 (*   errs # {}  : the call raises error(E, _) with E \in errs and the table becomes an element of alts.    *)
-(* A rejected call leaves the table unchanged (property C43).  Only when N is a LIST and the error arises   *)
-(* while the names are being applied (the infix/postfix conflict, which depends on the table built so far)  *)
-(* may the names before the offending one have been applied already: ISO does not say whether op/3 is       *)
-(* atomic over a list, and builtins.pl validates the list first and then applies it name by name.           *)
+(* A rejected call leaves the table unchanged (property C43).  ISO does not say whether op/3 is atomic     *)
+(* over a LIST of names ("for each"): an implementation may validate the whole call first (then any of     *)
+(* the table-independent errors may be raised and nothing is applied; builtins.pl does this for the        *)
+(* list elements) or process the elements one by one (then the elements before the first offending one     *)
+(* have been applied, and the error is one of that element - in particular the infix/postfix conflict,      *)
+(* which depends on the table built so far).  Both are accepted for a list; for a single name and for      *)
+(* an invalid priority or specifier the table must be unchanged.                                           *)
 OpResult(tb, P, S, N) ==
   LET st == StaticErrs(P, S, N) IN
-  IF st # {} THEN [errs |-> st, alts |-> {tb}]
-  ELSE LET ns == [j \in 1..Len(NameTerms(N)) |-> NameTerms(N)[j].n]
-           r  == RunNames(tb, P.i, S.n, ns)
-       IN IF r.ok THEN [errs |-> {}, alts |-> {r.tb}]
-          ELSE [errs |-> {r.err}, alts |-> IF IsAtom(N) THEN {tb} ELSE {tb, r.tb}]
+  IF PriorityErrs(P) \cup SpecErrs(S) # {} \/ IsVar(N) \/ ~(IsAtom(N) \/ IsF(N, ".", 2))
+  THEN [errs |-> st, alts |-> {tb}]
+  ELSE LET r    == RunNames(tb, P, S, NameTerms(N))
+           tail == IF r.ok /\ ~IsAtom(N) THEN ShapeErrs(N) ELSE {}        \* the end of a partial / improper list
+       IN IF r.ok /\ tail = {} THEN [errs |-> {}, alts |-> {r.tb}]
+          ELSE [errs |-> st \cup r.errs \cup tail, alts |-> IF IsAtom(N) THEN {tb} ELSE {tb, r.tb}]
 
 (* current_op(P, T, N) for arguments that are unbound or a valid priority / specifier / atom (8.14.4):   *)
 (* the set of solutions.  The order of solutions is not specified.                                       *)
